@@ -121,7 +121,7 @@ class PipelineUnit(WeaverUnit):
 
 class P(Property):
     id = "C02"
-    gen_targets = ["Funfit"]
+    gen_targets = ["Funfit", "Bundled", "Registry", "DocTables"]
 
     def units(self, tier):
         return [PipelineUnit()]
